@@ -3,7 +3,7 @@ import CoapVerif.Spec.TlsCreds
 /-
 C19 — (D)TLS sessions exchange application data only after an authenticated handshake.
 
-  M = Coap.TlsGate (CoapVerif/Model/TlsGate.lean): libcoap's DTLS session gating with GnuTLS as an oracle whose answers
+  M = Coap.TlsGate (CoapVerif/Model/TlsGate.lean): libcoap's DTLS and TLS session gating with GnuTLS as an oracle whose answers
       are part of every event.  `Sess.run` = a whole history of a session: ANY list of events (application sends, datagram
       arrivals, DTLS timer expiries, CoAP retransmission timer expiries, disconnects, release, reclamation), each with ANY
       list of oracle answers.  The trace theorems quantify over all of them (induction over the history, invariant
@@ -15,18 +15,19 @@ C19 — (D)TLS sessions exchange application data only after an authenticated ha
 namespace Coap.C19
 open Coap.TlsGate Coap.TlsGate.Ctx
 
-/-- a DTLS session on which the oracle has not reported success and which is not established -/
+/-- a DTLS or TLS session (`Proto.dtls`, `Proto.tls`: anything but plain UDP) on which the oracle has not reported
+success and which is not established -/
 structure Unauth (s : Sess) : Prop where
   est : s.est = false
   st : s.state ≠ .established
-  proto : s.proto = .dtls
+  proto : s.proto ≠ .udp
 
 /-- what the run-level induction carries between events -/
 structure SessOk (m : Mon) (s : Sess) : Prop where
   ok : m.ok = true
   est : s.est = true → m.seen = true
   st : s.state = .established → m.seen = true
-  proto : s.proto = .dtls
+  proto : s.proto ≠ .udp
 
 theorem sessOk_of_inv {m0 : Mon} {c : Ctx} (h : Inv m0 false c) : SessOk (m0.run c.out) c.s :=
   ⟨h.ok, h.est, h.st, h.proto⟩
@@ -145,14 +146,14 @@ theorem est_flag_only_after_hsOk {s : Sess} (h : Unauth s) (evs : List (Ev × Li
 client session made by coap_new_client_session_psk2 … -/
 theorem newClient_sessOk (orc : List Orc) : SessOk ((⟨true, false⟩ : Mon).run (newClient orc).2) (newClient orc).1 := by
   have h0 : Inv ⟨true, false⟩ false ({ s := { proto := .dtls, typ := .client }, orc := orc } : Ctx) :=
-    ⟨rfl, by simp, by simp, by simp, rfl⟩
+    ⟨rfl, by simp, by simp, by simp, by simp⟩
   exact sessOk_of_inv (dtlsEstablishClient_inv h0)
 
 /-- … and the server session made for a ClientHello. -/
 theorem endpoint_sessOk (orc : List Orc) :
     SessOk ((⟨true, false⟩ : Mon).run (endpointRxUnknownCtx orc).out) (endpointRxUnknownCtx orc).s := by
   have h0 : Inv ⟨true, false⟩ false ({ s := { proto := .dtls, typ := .hello, appRef := false }, orc := orc } : Ctx) :=
-    ⟨rfl, by simp, by simp, by simp, rfl⟩
+    ⟨rfl, by simp, by simp, by simp, by simp⟩
   exact sessOk_of_inv (handleDgramForProto_inv (inv_emit_inert _ rfl h0))
 
 /-- whole life of a client session, from coap_new_client_session_psk2 on: no handler call, no PDU written before the
@@ -209,67 +210,134 @@ theorem dgram_without_tls_ignored (c : Ctx) (hp : c.s.proto = .dtls) (ht : c.s.t
 
 /-! ### the delay queue: failure and success (one step, exact) -/
 
+theorem dtlsFreeSession_shape (c : Ctx) :
+    ∃ l, c.dtlsFreeSession.out = c.out ++ l ∧ (∀ o ∈ l, o = Out.bye ∨ o = Out.ev .closed) ∧
+      c.dtlsFreeSession.s.delayq = c.s.delayq ∧ c.dtlsFreeSession.s.inflight = c.s.inflight ∧
+      c.dtlsFreeSession.s.proto = c.s.proto := by
+  unfold Ctx.dtlsFreeSession Ctx.freeEnv
+  split
+  · simp only
+    split
+    · exact ⟨[.bye, .ev .closed], by simp [Ctx.emit, Ctx.upd]⟩
+    · exact ⟨[.ev .closed], by simp [Ctx.emit, Ctx.upd]⟩
+  · exact ⟨[], by simp⟩
+
 theorem sessionClose_shape (c : Ctx) :
     ∃ l, c.sessionClose.out = c.out ++ l ∧ (∀ o ∈ l, o = Out.bye ∨ o = Out.ev .closed) ∧
-      c.sessionClose.s.delayq = c.s.delayq ∧ c.sessionClose.s.inflight = c.s.inflight := by
-  unfold Ctx.sessionClose Ctx.dtlsFreeSession Ctx.freeEnv
+      c.sessionClose.s.delayq = c.s.delayq ∧ c.sessionClose.s.inflight = c.s.inflight ∧
+      c.sessionClose.s.proto = c.s.proto := by
+  obtain ⟨l, h1, h2, h3, h4, h5⟩ := dtlsFreeSession_shape c
+  unfold Ctx.sessionClose
   split
   · exact ⟨[], by simp⟩
-  · split
-    · simp only
-      split
-      · exact ⟨[.bye, .ev .closed], by simp [Ctx.emit, Ctx.upd]⟩
-      · exact ⟨[.ev .closed], by simp [Ctx.emit, Ctx.upd]⟩
-    · exact ⟨[], by simp⟩
+  · exact ⟨l, h1, h2, h3, h4, h5⟩
+  · exact ⟨l, by simpa [Ctx.upd] using h1, h2, by simpa [Ctx.upd] using h3, by simpa [Ctx.upd] using h4,
+      by simpa [Ctx.upd] using h5⟩
+
+/-- the reliable-transport part of coap_session_disconnected_lkd emits TCP / session events only -/
+theorem relTail_shape (st0 : SState) (c : Ctx) :
+    ∃ l, (c.relTail st0).out = c.out ++ l ∧ (∀ o ∈ l, ∃ e, o = Out.evTcp e) ∧
+      (c.relTail st0).s.delayq = c.s.delayq ∧ (c.relTail st0).s.inflight = c.s.inflight ∧
+      (c.relTail st0).s.proto = c.s.proto := by
+  unfold Ctx.relTail
+  split
+  · refine ⟨(if c.s.sockOpen = true then [Out.evTcp (if st0 = .connecting then .failed else .closed)] else []) ++
+      (if st0 ≠ .none then [Out.evTcp (if st0 = .established then .sessClosed else .sessFailed)] else []), ?_, ?_, ?_, ?_, ?_⟩
+    · by_cases h1 : c.s.sockOpen = true <;> by_cases h2 : st0 = .none <;> simp [h1, h2, Ctx.emit, Ctx.upd]
+    · intro o ho
+      simp only [List.mem_append] at ho
+      rcases ho with ho | ho <;> split at ho <;> simp at ho <;> exact ⟨_, ho⟩
+    · by_cases h1 : c.s.sockOpen = true <;> by_cases h2 : st0 = .none <;> simp [h1, h2, Ctx.emit, Ctx.upd]
+    · by_cases h1 : c.s.sockOpen = true <;> by_cases h2 : st0 = .none <;> simp [h1, h2, Ctx.emit, Ctx.upd]
+    · by_cases h1 : c.s.sockOpen = true <;> by_cases h2 : st0 = .none <;> simp [h1, h2, Ctx.emit, Ctx.upd]
+  · exact ⟨[], by simp⟩
+
+/-- everything coap_session_disconnected_lkd does (nothing in flight, not an ICMP error) before the reliable-transport
+events and the close: the NACKs, both queues emptied, state NONE (ESTABLISHED for UDP), con_active 0 -/
+def discPre (c : Ctx) (r : Nack) : Ctx :=
+  { c with out := c.out ++ ((c.s.delayq.filter fun q : QMsg => q.con).map (nackOf r) ++
+              (if ((c.s.delayq.filter fun q : QMsg => q.con).map (nackOf r)).isEmpty then [Out.nack r none none] else [])),
+           s := { c.s with delayq := [], state := if c.s.proto = .udp then .established else .none, conActive := 0,
+                           inflight := [] } }
+
+theorem disconnected_eq (c : Ctx) (r : Nack) (hr : r ≠ .icmp) (hi : c.s.inflight = []) :
+    c.disconnected r = ((discPre c r).relTail c.s.state).sessionClose := by
+  unfold Ctx.disconnected Ctx.discOuts discPre
+  simp [hr, hi, Ctx.upd]
+
+theorem sessionClose_state (c : Ctx) :
+    c.sessionClose.s.state = c.s.state ∧ c.sessionClose.s.doingFirst = c.s.doingFirst := by
+  unfold Ctx.sessionClose Ctx.dtlsFreeSession Ctx.freeEnv
+  split <;> (try split) <;> (try split) <;> simp [Ctx.emit, Ctx.upd]
+
+theorem relTail_state_tls (st0 : SState) (c : Ctx) (hp : c.s.proto = .tls) :
+    (c.relTail st0).s.state = c.s.state ∧ (c.relTail st0).s.doingFirst = false := by
+  unfold Ctx.relTail
+  simp only [hp, if_true]
+  by_cases h1 : c.s.sockOpen = true <;> by_cases h2 : st0 = .none <;> simp [h1, h2, Ctx.emit, Ctx.upd]
 
 /-- FULL STATEMENT (not proved as a trace theorem): in every history, each Confirmable that entered the delay queue
 before the session was established has, once the handshake failed / was abandoned / the session was released, exactly
 one NACK in the whole trace, none before that point, none after.
-PROVED here: the failure step itself, exactly.  Whenever coap_session_disconnected_lkd runs (handshake failure, DTLS
-retransmissions exhausted, alert, application disconnect: every reason but an ICMP error) on a session with nothing in
-flight — before establishment nothing is — its NACKs are precisely one per Confirmable of the delay queue, in queue
-order (`map` over `filter`: each once), followed by nothing that names a message; the delay queue is empty afterwards
-and nothing is in flight: the messages are gone. -/
+PROVED here: the failure step itself, exactly, for EVERY protocol of M (`Proto.dtls` and `Proto.tls`; see
+`tls_queued_con_one_nack_on_failure` for the TLS instance).  Whenever coap_session_disconnected_lkd runs (handshake
+failure, DTLS retransmissions exhausted, alert, TCP connection closed by the peer, application disconnect: every reason
+but an ICMP error) on a session with nothing in flight — before establishment nothing is — its NACKs are precisely one
+per Confirmable of the delay queue, in queue order (`map` over `filter`: each once), followed by nothing that names a
+message (on TLS: the TCP / session events); the delay queue is empty afterwards and nothing is in flight: the messages
+are gone. -/
 theorem queued_con_one_nack_on_failure_partial (c : Ctx) (r : Nack) (hr : r ≠ .icmp) (hi : c.s.inflight = []) :
     ∃ rest, (c.disconnected r).out = c.out ++ ((c.s.delayq.filter fun q : QMsg => q.con).map (nackOf r) ++ rest) ∧
       (∀ o ∈ rest, ∀ r' t sn, o ≠ Out.nack r' (some t) sn) ∧
       (c.disconnected r).s.delayq = [] ∧ (c.disconnected r).s.inflight = [] := by
-  -- everything coap_session_disconnected_lkd does before it closes the TLS object
-  let pre : Ctx :=
-    { c with out := c.out ++ ((c.s.delayq.filter fun q : QMsg => q.con).map (nackOf r) ++
-                (if ((c.s.delayq.filter fun q : QMsg => q.con).map (nackOf r)).isEmpty then [Out.nack r none none] else [])),
-             s := { c.s with delayq := [], state := if c.s.proto = .udp then .established else .none, conActive := 0,
-                             inflight := [] } }
-  have hpre : c.disconnected r = pre.sessionClose := by
-    unfold Ctx.disconnected Ctx.discOuts
-    simp [hr, hi, Ctx.upd, pre]
-  obtain ⟨l, h1, h2, h3, h4⟩ := sessionClose_shape pre
-  refine ⟨(if ((c.s.delayq.filter fun q : QMsg => q.con).map (nackOf r)).isEmpty then [Out.nack r none none] else []) ++ l,
+  have hpre := disconnected_eq c r hr hi
+  generalize hpd : discPre c r = pre at hpre
+  have hpo : pre.out = c.out ++ ((c.s.delayq.filter fun q : QMsg => q.con).map (nackOf r) ++
+      (if ((c.s.delayq.filter fun q : QMsg => q.con).map (nackOf r)).isEmpty then [Out.nack r none none] else [])) := by
+    rw [← hpd]; rfl
+  have hpq : pre.s.delayq = [] ∧ pre.s.inflight = [] := by rw [← hpd]; exact ⟨rfl, rfl⟩
+  obtain ⟨l1, a1, a2, a3, a4, _⟩ := relTail_shape c.s.state pre
+  obtain ⟨l2, b1, b2, b3, b4, _⟩ := sessionClose_shape (pre.relTail c.s.state)
+  refine ⟨(if ((c.s.delayq.filter fun q : QMsg => q.con).map (nackOf r)).isEmpty then [Out.nack r none none] else []) ++ (l1 ++ l2),
     ?_, ?_, ?_, ?_⟩
-  · rw [hpre, h1]; simp [pre, List.append_assoc]
+  · rw [hpre, b1, a1, hpo]; simp [List.append_assoc]
   · intro o ho r' t sn heq
     simp only [List.mem_append] at ho
-    rcases ho with ho | ho
+    rcases ho with ho | ho | ho
     · split at ho <;> simp at ho
       subst ho; simp at heq
-    · rcases h2 o ho with rfl | rfl <;> simp at heq
-  · rw [hpre, h3]
-  · rw [hpre, h4]
+    · obtain ⟨e, rfl⟩ := a2 o ho; simp at heq
+    · rcases b2 o ho with rfl | rfl <;> simp at heq
+  · rw [hpre, b3, a3, hpq.1]
+  · rw [hpre, b4, a4, hpq.2]
 
-/-- the same at release: coap_session_free -> coap_session_mfree NACKs every Confirmable still in the delay queue
-once (reason TLS failure on a DTLS session), after closing the TLS object, and empties the queue -/
+/-- the same at release, for every protocol: coap_session_free -> coap_session_mfree NACKs every Confirmable still in
+the delay queue once (reason TLS failure on a DTLS session, NOT_DELIVERABLE otherwise), after closing the TLS object,
+and empties the queue -/
+theorem queued_con_one_nack_on_release_any (c : Ctx) :
+    ∃ l, c.sessionFree.out = c.out ++ (l ++ (c.s.delayq.filter fun q : QMsg => q.con).map
+        (nackOf (if c.s.proto = .dtls then .tls else .undeliv))) ∧
+      (∀ o ∈ l, o = Out.bye ∨ o = Out.ev .closed) ∧ c.sessionFree.s.delayq = [] ∧ c.sessionFree.s.freed = true := by
+  obtain ⟨l, h1, h2, h3, _, h5⟩ := sessionClose_shape c
+  refine ⟨l, ?_, h2, ?_, ?_⟩
+  · unfold Ctx.sessionFree
+    simp [Ctx.upd, h1, h3, h5, List.append_assoc]
+  · simp [Ctx.sessionFree, Ctx.upd]
+  · simp [Ctx.sessionFree, Ctx.upd]
+
+/-- … on a DTLS session -/
 theorem queued_con_one_nack_on_release (c : Ctx) (hp : c.s.proto = .dtls) :
     ∃ l, c.sessionFree.out = c.out ++ (l ++ (c.s.delayq.filter fun q : QMsg => q.con).map (nackOf .tls)) ∧
       (∀ o ∈ l, o = Out.bye ∨ o = Out.ev .closed) ∧ c.sessionFree.s.delayq = [] ∧ c.sessionFree.s.freed = true := by
-  obtain ⟨l, h1, h2, h3, _⟩ := sessionClose_shape c
-  have hp' : c.sessionClose.s.proto = .dtls := by
-    unfold Ctx.sessionClose Ctx.dtlsFreeSession Ctx.freeEnv
-    split <;> (try split) <;> (try split) <;> simp_all [Ctx.emit, Ctx.upd]
-  refine ⟨l, ?_, h2, ?_, ?_⟩
-  · unfold Ctx.sessionFree
-    simp [Ctx.upd, h1, h3, hp', List.append_assoc]
-  · simp [Ctx.sessionFree, Ctx.upd]
-  · simp [Ctx.sessionFree, Ctx.upd]
+  have := queued_con_one_nack_on_release_any c
+  simpa [hp] using this
+
+/-- … on a TLS session -/
+theorem tls_queued_con_one_nack_on_release (c : Ctx) (hp : c.s.proto = .tls) :
+    ∃ l, c.sessionFree.out = c.out ++ (l ++ (c.s.delayq.filter fun q : QMsg => q.con).map (nackOf .undeliv)) ∧
+      (∀ o ∈ l, o = Out.bye ∨ o = Out.ev .closed) ∧ c.sessionFree.s.delayq = [] ∧ c.sessionFree.s.freed = true := by
+  have := queued_con_one_nack_on_release_any c
+  simpa [hp] using this
 
 /-- While the session is not established the gate holds everything back: coap_send writes nothing, NACKs nothing and
 appends the message to the delay queue (submission order); a message id already waiting there is refused. -/
@@ -349,7 +417,8 @@ theorem queued_delivered_in_order_once_on_success_partial (fuel : Nat) (c : Ctx)
           simp [Ctx.upd, Ctx.emit, Ctx.setRet, hp, he, hs, hd, ht, QMsg.snOf]
         obtain ⟨o1, o2, o3, o4, o5, o6, o7, o8, o9⟩ := hone
         have hlt : ¬ ((c.flushOne q rest).ret < 0) := by rw [o3]; omega
-        simp only [hlt, if_false, Bool.false_eq_true]
+        have hnt : ¬ ((c.flushOne q rest).s.proto = Proto.tls) := by rw [o5]; decide
+        simp only [hnt, hlt, if_false, Bool.false_eq_true]
         have hrec := ih (c.flushOne q rest) o5 o6 o7 o8
           (by intro k; have := ho (k + 1); rw [ht] at this; simpa [o4] using this)
           (by rw [o2, o4]; rw [hq, ht] at hlen; simpa using hlen)
@@ -362,12 +431,170 @@ theorem queued_delivered_in_order_once_on_success_partial (fuel : Nat) (c : Ctx)
           simp [sentPrefix, hc, this, List.append_assoc]
         · simp [sentPrefix, hc, List.append_assoc]
 
+/-! ### TLS over TCP (`Proto.tls`), explicitly -/
+
+/-- the TLS client session made by coap_new_client_session_psk2 — connect() completed at once (`now`) or still in
+progress — is unauthenticated unless the oracle says otherwise in the creating call … -/
+theorem newClientTls_sessOk (now : Bool) (orc : List Orc) :
+    SessOk ((⟨true, false⟩ : Mon).run (newClientTlsCtx now orc).out) (newClientTlsCtx now orc).s := by
+  have h0 : Inv ⟨true, false⟩ false ({ s := { proto := .tls, typ := .client }, orc := orc } : Ctx) :=
+    ⟨rfl, by simp, by simp, by simp, by simp⟩
+  unfold newClientTlsCtx
+  exact sessOk_of_inv (inv_ite (fun _ => tlsEstablish_inv h0) fun _ => inv_upd _ (by simp) (by simp) (by simp) h0)
+
+/-- … and so is the server session made for an accepted TCP connection. -/
+theorem accept_sessOk (orc : List Orc) : SessOk ((⟨true, false⟩ : Mon).run (acceptCtx orc).out) (acceptCtx orc).s := by
+  have h0 : Inv ⟨true, false⟩ false
+      ({ s := { proto := .tls, typ := .server, appRef := false, state := .connecting }, orc := orc } : Ctx) :=
+    ⟨rfl, by simp, by simp, by simp, by simp⟩
+  exact sessOk_of_inv (tlsEstablish_inv (inv_emit_inert _ rfl (inv_emit_inert _ rfl h0)))
+
+/-- `no_handler_before_hsOk` on a TLS session: in every history (connect completions, socket reads and writes,
+application sends, disconnects, release, each with any answers of the TLS library) every handler call is preceded by the
+oracle's success -/
+theorem tls_no_handler_before_hsOk {s : Sess} (hp : s.proto = .tls) (he : s.est = false) (hst : s.state ≠ .established)
+    (evs : List (Ev × List Orc)) (pre post : List Out) (o : Out)
+    (htr : (s.run evs).2 = pre ++ o :: post) (ho : o.isHandler = true) : Out.hsOkMark ∈ pre :=
+  no_handler_before_hsOk ⟨he, hst, by simp [hp]⟩ evs pre post o htr ho
+
+/-- … and every PDU written (the CSM included) is preceded by it and goes through coap_tls_write -/
+theorem tls_nothing_written_before_hsOk {s : Sess} (hp : s.proto = .tls) (he : s.est = false) (hst : s.state ≠ .established)
+    (evs : List (Ev × List Orc)) (pre post : List Out) (tls : Bool) (v : View) (sn : Option Nat)
+    (htr : (s.run evs).2 = pre ++ Out.tx tls v sn :: post) : Out.hsOkMark ∈ pre ∧ tls = true := by
+  have hu : Unauth s := ⟨he, hst, by simp [hp]⟩
+  refine ⟨nothing_queued_written_before_established hu evs pre post tls v sn htr, ?_⟩
+  cases tls with
+  | true => rfl
+  | false => exact absurd rfl (no_cleartext_on_dtls_session hu evs _ (by rw [htr]; simp) v sn)
+
+/-- whole life of a TLS client session, from coap_new_client_session_psk2 on -/
+theorem tls_client_life_gated (now : Bool) (orc0 : List Orc) (evs : List (Ev × List Orc)) (pre post : List Out) (o : Out)
+    (htr : (newClientTlsCtx now orc0).out ++ ((newClientTlsCtx now orc0).s.run evs).2 = pre ++ o :: post)
+    (ho : o.needsHs = true) : Out.hsOkMark ∈ pre ∧ o.isClear = false := by
+  have hk := (run_sessOk evs (newClientTls_sessOk now orc0)).ok
+  rw [← Mon.run_append, htr] at hk
+  constructor
+  · rcases mon_split _ pre post o hk ho with h1 | ⟨x, hx, hm⟩
+    · simp at h1
+    · rw [← isMark_eq hm]; exact hx
+  · exact mon_noclear _ _ hk o (by simp)
+
+/-- whole life of a TLS server session, from the accept on -/
+theorem tls_server_life_gated (orc0 : List Orc) (evs : List (Ev × List Orc)) (pre post : List Out) (o : Out)
+    (htr : (acceptCtx orc0).out ++ ((acceptCtx orc0).s.run evs).2 = pre ++ o :: post)
+    (ho : o.needsHs = true) : Out.hsOkMark ∈ pre ∧ o.isClear = false := by
+  have hk := (run_sessOk evs (accept_sessOk orc0)).ok
+  rw [← Mon.run_append, htr] at hk
+  constructor
+  · rcases mon_split _ pre post o hk ho with h1 | ⟨x, hx, hm⟩
+    · simp at h1
+    · rw [← isMark_eq hm]; exact hx
+  · exact mon_noclear _ _ hk o (by simp)
+
+/-- `queued_con_one_nack_on_failure_partial` on a TLS session, with what is special there spelled out: the delay-queue
+NACKs do NOT depend on the transport being unreliable — every request queued on a TLS session (coap_send has made it
+Confirmable) is NACKed once, in order, before the TCP / session events and the close; the session is back in state
+NONE, `doing_first` is cleared. -/
+theorem tls_queued_con_one_nack_on_failure (c : Ctx) (hp : c.s.proto = .tls) (r : Nack) (hr : r ≠ .icmp)
+    (hi : c.s.inflight = []) :
+    ∃ rest, (c.disconnected r).out = c.out ++ ((c.s.delayq.filter fun q : QMsg => q.con).map (nackOf r) ++ rest) ∧
+      (∀ o ∈ rest, ∀ r' t sn, o ≠ Out.nack r' (some t) sn) ∧
+      (c.disconnected r).s.delayq = [] ∧ (c.disconnected r).s.inflight = [] ∧
+      (c.disconnected r).s.state = .none ∧ (c.disconnected r).s.doingFirst = false := by
+  obtain ⟨rest, h1, h2, h3, h4⟩ := queued_con_one_nack_on_failure_partial c r hr hi
+  have hpp : (discPre c r).s.proto = .tls := hp
+  have hps : (discPre c r).s.state = .none := by simp [discPre, hp]
+  have a := sessionClose_state ((discPre c r).relTail c.s.state)
+  have b := relTail_state_tls c.s.state (discPre c r) hpp
+  refine ⟨rest, h1, h2, h3, h4, ?_, ?_⟩
+  · rw [disconnected_eq c r hr hi, a.1, b.1, hps]
+  · rw [disconnected_eq c r hr hi, a.2, b.2]
+
+/-- `queued_delivered_in_order_once_on_success_partial` on a TLS session: once the peer's CSM has arrived
+(coap_session_connected), with the TLS library accepting the writes, the WHOLE delay queue is written through
+coap_tls_write, in queue order, each message once (no NSTART on a reliable transport), and the queue is empty. -/
+theorem tls_queued_delivered_in_order_once_on_success (fuel : Nat) (c : Ctx) (hp : c.s.proto = .tls)
+    (he : c.s.est = true) (hs : c.s.state = .established)
+    (ho : ∀ n, c.orc.drop n = [] ∨ ∃ t, c.orc.drop n = Orc.snd .ok :: t) (hlen : c.s.delayq.length ≤ c.orc.length)
+    (hf : c.s.delayq.length < fuel) :
+    (Ctx.flushLoop fuel c).out = c.out ++ c.s.delayq.map (fun m => Out.tx true m.strmView (some m.sn)) ∧
+      (Ctx.flushLoop fuel c).s.delayq = [] := by
+  induction fuel generalizing c with
+  | zero => omega
+  | succ n ih =>
+    unfold Ctx.flushLoop
+    cases hq : c.s.delayq with
+    | nil => simp [hq]
+    | cons q rest =>
+      simp only [hs, ne_eq, not_true_eq_false, if_false]
+      have horc : ∃ t, c.orc = Orc.snd .ok :: t := by
+        rcases ho 0 with h | h
+        · simp at h; rw [hq, h] at hlen; simp at hlen
+        · simpa using h
+      obtain ⟨t, ht⟩ := horc
+      have hblock : ¬ ((q.con && decide (c.s.proto ≠ Proto.tls) && decide (c.s.conActive ≥ NSTART)) = true) := by
+        simp [hp]
+      simp only [hblock, if_false, Bool.false_eq_true]
+      have hone : (c.flushOne q rest).out = c.out ++ [Out.tx true q.strmView (some q.sn)] ∧
+          (c.flushOne q rest).s.delayq = rest ∧ (c.flushOne q rest).ret = 1 ∧ (c.flushOne q rest).orc = t ∧
+          (c.flushOne q rest).s.proto = .tls ∧ (c.flushOne q rest).s.est = true ∧
+          (c.flushOne q rest).s.state = .established := by
+        unfold Ctx.flushOne Ctx.sessionSendPdu Ctx.tlsWrite Ctx.tlsRecordSend Ctx.popSnd Ctx.tlsTail
+        simp [Ctx.upd, Ctx.emit, Ctx.setRet, hp, he, hs, ht, QMsg.snOf]
+      obtain ⟨o1, o2, o3, o4, o5, o6, o7⟩ := hone
+      have hle : ¬ ((c.flushOne q rest).ret ≤ 0) := by rw [o3]; omega
+      simp only [o5, hle, if_true, if_false]
+      have hrec := ih (c.flushOne q rest) o5 o6 o7
+        (by intro k; have := ho (k + 1); rw [ht] at this; simpa [o4] using this)
+        (by rw [o2, o4]; rw [hq, ht] at hlen; simpa using hlen)
+        (by rw [o2]; rw [hq] at hf; simp at hf; omega)
+      rw [hrec.1, hrec.2, o1, o2]
+      simp [List.append_assoc]
+
 /-! ### non-vacuity -/
+
+/-- a TLS client session as coap_new_client_session_psk2 leaves it when connect() completed at once: HANDSHAKE -/
+def tlsHsClient : Sess := (newClientTlsCtx true [.env true, .hs .again]).s
+
+example : tlsHsClient.proto = .tls ∧ tlsHsClient.est = false ∧ tlsHsClient.state = .handshake := by decide
+
+/-- TLS: two requests queued during the handshake, the peer closes the connection (keys differ): each is NACKed once,
+in order, then the TCP / session events, the close, and coap_read_session's own (anonymous) NACK — exactly what
+harness/tls.c observes (`tls ck=6b6579 sk=6b6578 conn=prog acc=early wait=client q=CC`) -/
+example :
+    (tlsHsClient.run [(.appSendStrm false 1 0 "01", []), (.appSendStrm false 1 0 "02", []), (.strmRead, [.hs .eof])]).2 =
+      [.nack .tls (some "01") (some 0), .nack .tls (some "02") (some 1), .evTcp .closed, .evTcp .sessFailed, .bye,
+       .ev .closed, .nack .undeliv none none] := by
+  decide
+
+/-- TLS: the handshake completes, the CSM goes out; when the peer's CSM arrives the queue is flushed in order; the
+server's response reaches the handler -/
+example :
+    (tlsHsClient.run [(.appSendStrm false 1 0 "01", []), (.appSendStrm false 1 0 "02", []),
+                      (.strmRead, [.hs .ok, .snd .ok, .recv .again]),
+                      (.strmRead, [.recv (.data ⟨0, 225, 0, "-", ""⟩), .snd .ok, .snd .ok]),
+                      (.strmRead, [.recv (.data ⟨0, 69, 0, "01", "6869"⟩)])]).2 =
+      [.hsOkMark, .ev .connected, .tx true ⟨0, 225, 0, "-", ""⟩ (some 2),
+       .evTcp .sessConnected, .tx true ⟨0, 1, 0, "01", ""⟩ (some 0), .tx true ⟨0, 1, 0, "02", ""⟩ (some 1),
+       .rsp "01" 69] := by
+  decide
+
+/-- TLS: release with a queued request while the handshake hangs (the server ignored its own failure): closed, then
+NACKed once, NOT_DELIVERABLE -/
+example : (tlsHsClient.run [(.appSendStrm false 1 0 "01", []), (.release, [])]).2 =
+      [.bye, .ev .closed, .nack .undeliv (some "01") (some 0)] := by
+  decide
+
+/-- TLS: connect() still in progress — CONNECTING, doing_first set; the server session after accept: HANDSHAKE -/
+example : (newClientTlsCtx false []).s.state = .connecting ∧ (newClientTlsCtx false []).s.doingFirst = true := by decide
+example : (acceptCtx [.env true, .hs .again]).out = [.evTcp .connected, .evNew] ∧ (acceptCtx [.env true, .hs .again]).s.state = .handshake := by
+  decide
 
 /-- a client session in HANDSHAKE state as coap_new_client_session_psk2 leaves it -/
 def hsClient : Sess := { proto := .dtls, typ := .client, state := .handshake, tls := true }
 
-example : Unauth hsClient := ⟨rfl, by decide, rfl⟩
+example : Unauth hsClient := ⟨rfl, by decide, by decide⟩
+example : Unauth tlsHsClient := ⟨by decide, by decide, by decide⟩
 
 /-- two requests queued, then the handshake completes: both are written through the TLS layer, in order, after the
 mark; the CON waits for its ACK, the response reaches the handler -/
